@@ -1468,6 +1468,15 @@ class GateauxDerivativeRuleset(GenericDerivativeRuleset):
                 # Case: d/dt [w + t v]
                 return apply_grads(v)
 
+        # A coefficient with a user-supplied derivative relation df/dw varies with w, and so
+        # does its gradient; that term is not representable here: refuse instead of
+        # silently differentiating it to zero.
+        if self._cd.get(o) is not None:  # type: ignore
+            raise NotImplementedError(
+                "Gateaux derivative of the gradient of a coefficient with a user-supplied "
+                "coefficient derivative is not implemented."
+            )
+
         # If o is not among coefficient derivatives, return do/dw=0
         gprimesum = Zero(g.ufl_shape)
 
